@@ -3,6 +3,7 @@ C12 — whole-tool part: the API FILE (`API.to_dict` + `json.dump(indent=2)`), n
 -/
 import StubGen.Proofs.ApiDict
 import StubGen.Proofs.ApiDictTotal
+import StubGen.Proofs.JsonLex
 import StubGen.Proofs.Pipeline
 import StubGen.Theorems.C12
 
@@ -88,6 +89,14 @@ theorem entry_references (m : Module) (c : Class) (f : Function) (e : Enum) :
     nesting depth) is free of them and serialises. -/
 theorem docstring_types_serialise (e : GExpr) (t : AType) (h : annToType e = some t) : ∃ j, t.asdict = .ok j :=
   asdict_ok_of_noEnum t (annToType_noEnum e t h)
+
+/-- "The API file is valid JSON", lexical part: every string token the serialiser writes — keys, ids, names, docstring
+    texts with any characters whatsoever — is a quote, a sequence of unescaped characters ≥ U+0020 other than `"` and `\\`
+    and of RFC 8259 escape sequences (`\\" \\\\ \\b \\f \\n \\r \\t \\uXXXX`, a surrogate pair above the BMP), and a quote. -/
+theorem api_file_strings_valid (s : String) :
+    ∃ body, (jsonStr s).toList = '"' :: body ++ ['"'] ∧ JsonBodyOk body :=
+  let ⟨body, h1, h2, _⟩ := jsonStr_valid s
+  ⟨body, h1, h2⟩
 
 /-- `json.dump(…, indent=2)` on a small inventory: the exact text (S-P compares this text byte for byte with the file the
     tool writes) -/
